@@ -53,6 +53,17 @@ func intsArg(v []int) string {
 // ---------------------------------------------------------------- QR
 
 func (g *gen) stageQR() {
+	g.stageQRSmallest()
+	g.stageQRRest()
+}
+
+// stageSizes: the size-choosing functions (C13)
+func (g *gen) stageSizes() {
+	g.stageQRSmallest()
+	g.stagePDFdims()
+}
+
+func (g *gen) stageQRSmallest() {
 	modes := []int{1, 2, 4, 8}
 	// findSmallestVersionInfo: every capacity boundary of every version x level x mode, +-2 bits; all of 0..400
 	for ecl := 0; ecl < 4; ecl++ {
@@ -86,6 +97,9 @@ func (g *gen) stageQR() {
 	}
 	g.emit("st.qr.smallest 4 4 100")
 	g.emit("st.qr.smallest 0 4 30000")
+}
+
+func (g *gen) stageQRRest() {
 	// alignment pattern centres of all 40 versions
 	for v := 1; v <= 40; v++ {
 		g.emit("st.qr.align %d", v)
@@ -309,6 +323,12 @@ func (g *gen) stageAztec() {
 // ---------------------------------------------------------------- PDF417
 
 func (g *gen) stagePDF() {
+	g.stagePDFdims()
+	g.stagePDFec()
+	g.stagePDFhl()
+}
+
+func (g *gen) stagePDFdims() {
 	// calcDimensions: every (data words, check words) pair that can occur (and a margin beyond)
 	for lvl := 0; lvl <= 8; lvl++ {
 		ecc := 2 << uint(lvl)
@@ -327,6 +347,15 @@ func (g *gen) stagePDF() {
 	for c := 1; c <= 30; c++ {
 		for d := 1; d <= g.n(70, 928); d++ {
 			g.emit("st.pdf.pad %d %d %d", d, 2<<uint((d+c)%9), c)
+		}
+	}
+}
+
+// stagePDFec: the check-word functions whose output carries the requested strength (C12)
+func (g *gen) stagePDFec() {
+	for layers := 1; layers <= 4; layers++ {
+		for w := 1; w <= 64; w += 1 + g.intn(3) {
+			g.emit("st.az.mode 1 %d %d", layers, w)
 		}
 	}
 	// Compute: random data for every level, single words, the extreme values
@@ -348,6 +377,10 @@ func (g *gen) stagePDF() {
 		g.emit("st.pdf.ec %d 3,928,928", lvl)
 		g.emit("st.pdf.ec %d -", lvl)
 	}
+	g.emit("st.pdf.ec 9 1")
+}
+
+func (g *gen) stagePDFhl() {
 	// highlevelEncode: single bytes, pairs of class representatives, digit runs around 13 / 44 / 45, byte runs around 6
 	for b := 0; b < 256; b++ {
 		g.emit("st.pdf.hl %s", hx(string([]byte{byte(b)})))
